@@ -122,7 +122,7 @@ class Reach:
             tot = self.all_lines.get(lab, set())
             hit = self.lines.get(lab, set()) & tot if tot else self.lines.get(lab, set())
             out[lab] = {"calls": self.calls[lab], "lines_hit": sorted(hit),
-                        "lines_total": len(tot)}
+                        "lines_total": len(tot), "lines_all": sorted(tot)}
         return out
 
     def stop(self):
